@@ -2205,11 +2205,17 @@ func ruleStdioDelivery(c *Ctx) {
 					continue
 				}
 				defs, _ := nodeDefsUses(info, m.Ast)
+				// tests of the write's error: those reached from the write before
+				// the next receive (the variable may be the one Recv assigns too)
+				fromWrite := g.ReachAfter(m, func(y *Node) bool { return y == recvN }, nil)
 				for ev := range defs {
 					if !isErrorType(ev.Type()) {
 						continue
 					}
 					for _, x := range g.Nodes {
+						if _, r := fromWrite[x]; !r && x != m {
+							continue
+						}
 						for _, e := range x.Succs {
 							at, isAt := edgeAtom(info, e)
 							if !isAt || at.Kind != "nil" || at.Op != token.NEQ || identObj(info, at.X) != ev {
